@@ -46,6 +46,10 @@ class Model:
         name, args, kw = call
         return getattr(self, "_" + name)(*args, **kw)
 
+    def _Probe(self, category, unit):
+        """questions asked between registrations (lookups, validity checks, attempted constructions): they change nothing"""
+        return "accept"
+
     def _AddUnit(self, qt, name, unit, frombase=None, tobase=None, default_category=None):
         if unit in self.unit_type:
             return "reject"
